@@ -16,6 +16,17 @@ CLAIMED = {
    note=("Reals axioms of the standard library (sig_forall_dec, sig_not_dec, functional_extensionality_dep, classic); "
          "Coq-Interval for one constant bound; translator and harness trusted but differentially tested; rounding "
          "(real vs binary64) not verified.")),
+ "C08": dict(
+   technique="Coq proof over definitions regenerated from source (py2coq) + vm_compute correspondence with recorded gamma/kv oracles",
+   text=("Machine-checked proofs (reals, Gamma and K_nu abstract) that the von Karman structure function and the phase covariance "
+         "have one shape 1 - C(x)/C0, that the two published constants agree to 6.4e-4 (interval arithmetic from Gamma enclosures), "
+         "that the slope-covariance and KL copies coincide, and of the r0^(-5/3) scaling of every copy, all about Gallina definitions "
+         "regenerated from the four source files on every run; monotonicity/saturation are proved from named facts about "
+         "x^(5/6)K_{5/6}(x) (partial); the zero-at-zero clause is refuted at binary64 (known finding). The generated definitions run at "
+         "binary64 against the implementation with every gamma/kv call recorded; a numerical falsifier covers the analytic clauses."),
+   ref="5 C08",
+   note=("K_{5/6} uninterpreted; Gamma enclosures are hypotheses (checked against scipy each run); Reals axioms; Coq-Interval; "
+         "Kolmogorov limit, Hankel identity and positive-definiteness are only tested numerically, not proved.")),
 }
 NOT_YET = {}
 ALL = ["C%02d" % i for i in range(1, 21)]
